@@ -18,10 +18,12 @@
 //	  O par <len> <len> ... fail=<j>          (the j-th conn write fails, 0 = none); exec adds order=<calls by first frame>
 //	  R rets=<ok|err per call>   /   Q → R wire=...
 //
-//	C <id> e2e path=poller|blockparser|ownloop|transfer queued=<0|1>
+//	C <id> e2e path=poller|blockparser|ownloop|transfer queued=<0|1> mode=<lt|et|etos>
 //	                                  real sockets, a raw client, concurrent writers, messages sent right behind the
 //	                                  handshake (sampled upgrade paths)
-//	  O run msgs=<k> writers=<w> size=<bytes>        R log=open,m0,...,close groups=<w> whole=1
+//	  O run msgs=<k> writers=<w> size=<bytes>        R log=open,m0,...,close groups=<w> whole=1 exec=<queue|sync|other>
+//	                                  (exec = the executor Upgrade installed in the websocket Conn: the nbio.Conn job
+//	                                  queue, nbhttp.SyncExecutor, or the blocking parser's / none)
 //
 // Direct oracles:
 //
@@ -29,6 +31,8 @@
 //	c14-close-once      close callback more than once, not last, or missing after the connection ended
 //	c14-frames-whole    the conn's byte stream is not a concatenation of whole per-call frame groups
 //	c14-lost-dup        a call that returned nil is missing from / twice on the wire of a quiescent, live connection
+//	c05-overlap         (for C05, `gen -tier c05`) a websocket message/close callback ran while the HTTP handler that
+//	                    upgraded the same connection was still running — poller-driven and blocking-parser paths
 package main
 
 import (
@@ -41,6 +45,7 @@ import (
 	"io"
 	"net"
 	"net/http"
+	"reflect"
 	"sort"
 	"strconv"
 	"strings"
@@ -62,6 +67,16 @@ import (
 // ---------------------------------------------------------------------------------- generator
 
 func gen(g *lp.Gen) {
+	if g.Tier == "c05" {
+		// C05's view of this harness: end-to-end upgrades only, on the paths where the HTTP handler that upgrades
+		// and the websocket callbacks go through one executor (oracle c05-overlap)
+		for i := 0; i < g.N; i++ {
+			path := g.Pick("poller", "poller", "blockparser")
+			g.P("C %d e2e path=%s queued=0 mode=%s", i, path, []string{"lt", "et", "etos"}[i%3])
+			g.P("O run msgs=%d writers=%d size=%d", g.PickInt(1, 3, 8), g.PickInt(1, 2), g.PickInt(10, 70000))
+		}
+		return
+	}
 	for i := 0; i < g.N; i++ {
 		switch {
 		case i%10 == 9 || (g.Tier == "thorough" && i%10 == 4):
@@ -189,7 +204,10 @@ func genE2E(g *lp.Gen, id int) {
 	if path == "blockparser" || path == "ownloop" {
 		q = g.Intn(2)
 	}
-	g.P("C %d e2e path=%s queued=%d", id, path, q)
+	// the epoll mode decides which executor Upgrade installs (decision table WsCb.execOf): the poller-driven path must
+	// keep the conn's job queue in every mode, ET+ONESHOT included
+	mode := g.Pick("lt", "et", "etos", "etos")
+	g.P("C %d e2e path=%s queued=%d mode=%s", id, path, q, mode)
 	g.P("O run msgs=%d writers=%d size=%d", g.PickInt(1, 3, 8), g.PickInt(1, 4, 16), g.PickInt(10, 70000, 200000))
 }
 
@@ -1143,6 +1161,13 @@ func runE2E(e *lp.Exec, head string, ops []string) {
 	vsys.VirtualAll = false
 	ws := strings.Fields(head)
 	path, queued := field(ws, "path"), field(ws, "queued") == "1"
+	var epollMod, oneshot uint32
+	switch field(ws, "mode") {
+	case "et":
+		epollMod = nbio.EPOLLET
+	case "etos":
+		epollMod, oneshot = nbio.EPOLLET, nbio.EPOLLONESHOT
+	}
 	e.P("> %s", head)
 	e.P("ok")
 	for _, ln := range ops {
@@ -1161,7 +1186,22 @@ func runE2E(e *lp.Exec, head string, ops []string) {
 		var wsrv *websocket.Conn
 		var wgW sync.WaitGroup
 		rets := make([]string, writers)
+		// the HTTP handler that performs the upgrade is slow too: on the paths where it shares an executor with the
+		// websocket callbacks (poller-driven: the conn's job queue; blocking parser: the reader goroutine) no message
+		// or close callback may run while it is still running (C05)
+		var inHandler, overlapH int32
+		execKind := "-"
 		u.OnOpen(func(c *websocket.Conn) {
+			switch reflect.ValueOf(c.Execute).Pointer() {
+			case reflect.ValueOf(nbhttp.SyncExecutor).Pointer():
+				execKind = "sync"
+			case reflect.ValueOf((&nbio.Conn{}).Execute).Pointer():
+				execKind = "queue"
+			case 0:
+				execKind = "none"
+			default:
+				execKind = "other"
+			}
 			l.cb("open", func() { time.Sleep(3 * time.Millisecond) }) // messages are already on their way
 			wsrv = c
 			for w := 0; w < writers; w++ {
@@ -1174,17 +1214,31 @@ func runE2E(e *lp.Exec, head string, ops []string) {
 		})
 		u.OnMessage(func(c *websocket.Conn, mt websocket.MessageType, data []byte) {
 			name := string(data)
+			if atomic.LoadInt32(&inHandler) == 1 {
+				atomic.StoreInt32(&overlapH, 1)
+			}
 			l.cb(name, func() { time.Sleep(200 * time.Microsecond) })
 		})
-		u.OnClose(func(c *websocket.Conn, err error) { l.cb("close", nil) })
+		u.OnClose(func(c *websocket.Conn, err error) {
+			if atomic.LoadInt32(&inHandler) == 1 {
+				atomic.StoreInt32(&overlapH, 1)
+			}
+			l.cb("close", nil)
+		})
 		mux := http.NewServeMux()
 		transfer := path == "transfer"
+		sharedExec := path == "poller" || path == "blockparser"
 		mux.HandleFunc("/ws", func(w http.ResponseWriter, r *http.Request) {
+			atomic.StoreInt32(&inHandler, 1)
 			if transfer {
 				_, _ = u.UpgradeAndTransferConnToPoller(w, r, nil)
 			} else {
 				_, _ = u.Upgrade(w, r, nil)
 			}
+			if sharedExec {
+				time.Sleep(2 * time.Millisecond) // the rest of the handler, after the upgrade
+			}
+			atomic.StoreInt32(&inHandler, 0)
 		})
 		var addr string
 		var stop func()
@@ -1196,6 +1250,7 @@ func runE2E(e *lp.Exec, head string, ops []string) {
 				im = nbhttp.IOModBlocking
 			}
 			eng := nbhttp.NewEngine(nbhttp.Config{Network: "tcp", Addrs: []string{"127.0.0.1:0"}, NPoller: 2, Handler: mux, IOMod: im,
+				EpollMod: epollMod, EPOLLONESHOT: oneshot,
 				MessageHandlerPoolSize: 16, BodyAllocator: mempool.New(1024, 1<<20), KeepaliveTime: time.Hour})
 			u.Engine = eng
 			if err := eng.Start(); err != nil {
@@ -1204,7 +1259,8 @@ func runE2E(e *lp.Exec, head string, ops []string) {
 			addr = eng.Addrs[0]
 			stop = func() { stopWithin(eng.Stop) }
 		default: // ownloop, transfer: the std server hands the conn over
-			eng := nbhttp.NewEngine(nbhttp.Config{NPoller: 2, MessageHandlerPoolSize: 16, BodyAllocator: mempool.New(1024, 1<<20), KeepaliveTime: time.Hour})
+			eng := nbhttp.NewEngine(nbhttp.Config{NPoller: 2, EpollMod: epollMod, EPOLLONESHOT: oneshot,
+				MessageHandlerPoolSize: 16, BodyAllocator: mempool.New(1024, 1<<20), KeepaliveTime: time.Hour})
 			u.Engine = eng
 			if err := eng.Start(); err != nil {
 				panic(err)
@@ -1274,7 +1330,7 @@ func runE2E(e *lp.Exec, head string, ops []string) {
 		l.mu.Lock()
 		cl.done, cl.overlap, cl.closes = append([]string(nil), l.done...), l.overlap, l.closes
 		l.mu.Unlock()
-		what := fmt.Sprintf("e2e path=%s queued=%v", path, queued)
+		what := fmt.Sprintf("e2e path=%s queued=%v mode=%s", path, queued, field(ws, "mode"))
 		if starved || (!ok101 && err != nil && isTimeout(err)) {
 			// one-sided: a client-side timeout on an overloaded machine says nothing about the property
 			e.P("> %s skip=1", ln)
@@ -1287,6 +1343,9 @@ func runE2E(e *lp.Exec, head string, ops []string) {
 			e.Oracle("c14-callback-order", "%s: upgrade failed: %v", what, err)
 		}
 		checkLog(e, cl, true, what)
+		if sharedExec && atomic.LoadInt32(&overlapH) == 1 {
+			e.Oracle("c05-overlap", "%s: a websocket message/close callback ran while the HTTP handler that upgraded the same connection was still running (executor installed by Upgrade: %s); log %v", what, execKind, cl.done)
+		}
 		fs, _ := decode(wire)
 		ids, prob = identify(fs, lens, maxf, false)
 		whole := 1
@@ -1327,7 +1386,7 @@ func runE2E(e *lp.Exec, head string, ops []string) {
 				logc = append([]string{"open"}, rest...)
 			}
 		}
-		e.P("R log=%s groups=%d whole=%d rawlog=%s", strings.Join(logc, ","), groups, whole, strings.Join(cl.done, ","))
+		e.P("R log=%s groups=%d whole=%d exec=%s rawlog=%s", strings.Join(logc, ","), groups, whole, execKind, strings.Join(cl.done, ","))
 		e.Key(fmt.Sprintf("%s|%d.%d.%d|%s", what, msgs, writers, nfrag(size, maxf), strings.Join(cl.done, ",")), writers >= 2 || msgs >= 2)
 		e.Count("e2e", path)
 		stop()
